@@ -4,6 +4,7 @@ import (
 	"fmt"
 	"go/token"
 	"go/types"
+	"strconv"
 	"strings"
 
 	"ndndcheck/core"
@@ -439,6 +440,7 @@ func C15(c *core.Ctx) {
 
 	c15Aliasing(c, pkg)
 	c15Scan(c)
+	c15Round4b(c, pkg)
 
 	if hd := c.Fn("R15.3", "std/object", "rrSegFetcher", "handleData"); hd != nil {
 		state := ssa.Value(hd.Params[2])
@@ -794,4 +796,118 @@ func c15Scan(c *core.Ctx) {
 		})
 		c.Decide(bad == "", "R15.8", "scan-sentinel-not-removed", c.Pos(nx), "the element remembered to detect a full circle cannot be removed in the iteration that remembers it", "doCheck remembers the first scanned stream to detect a full circle, but the same iteration can remove that stream from the list ("+bad+"): it is never met again and the scan loops forever (the client goroutine hangs; no other object completes)")
 	}
+}
+
+// c15Round4b — rules prompted by round-4 seeds.
+//
+// R15.9 a configuration that is copied field by field is copied completely: a struct literal
+// of type T in which three or more fields are loaded from the same fields of another T
+// value is meant as a copy of that value — every field of T is then either copied or set
+// explicitly. A forgotten field silently takes its zero value (an Interest config copied
+// without MustBeFresh lets a cache answer the version discovery with stale metadata: the
+// consumer obtains an old version, completely and without error).
+//
+// R15.10 what Remove removes is what Get serves: MemoryStore.Remove acts on the committed
+// tree (the one Get reads) on every path, whether or not a transaction is open.
+func c15Round4b(c *core.Ctx, pkg string) {
+	p := c.P
+	nCopies := 0
+	for _, fn := range p.FuncsIn(pkg) {
+		if strings.HasSuffix(p.File(fn.Pos()), "_test.go") {
+			continue
+		}
+		core.Instrs(fn, func(in ssa.Instruction) {
+			al, ok := in.(*ssa.Alloc)
+			if !ok {
+				return
+			}
+			st, ok := core.Deref(al.Type()).Underlying().(*types.Struct)
+			if !ok || st.NumFields() < 4 {
+				return
+			}
+			set := map[int]bool{}
+			fromSrc := map[string]int{}
+			for _, r := range core.Refs(al) {
+				fa, isFA := r.(*ssa.FieldAddr)
+				if !isFA {
+					continue
+				}
+				for _, r2 := range core.Refs(fa) {
+					stI, isSt := r2.(*ssa.Store)
+					if !isSt || stI.Addr != ssa.Value(fa) {
+						continue
+					}
+					set[fa.Field] = true
+					if u, isU := core.Strip(stI.Val).(*ssa.UnOp); isU && u.Op == token.MUL {
+						if sfa, isS := u.X.(*ssa.FieldAddr); isS && sfa.Field == fa.Field && types.Identical(core.Deref(sfa.X.Type()), core.Deref(al.Type())) {
+							fromSrc[accessKey(sfa.X)]++
+						}
+					}
+				}
+			}
+			best := 0
+			for _, n := range fromSrc {
+				if n > best {
+					best = n
+				}
+			}
+			if best < 3 {
+				return
+			}
+			nCopies++
+			var missing []string
+			for i := 0; i < st.NumFields(); i++ {
+				if !set[i] && st.Field(i).Exported() {
+					missing = append(missing, st.Field(i).Name())
+				}
+			}
+			c.Decide(len(missing) == 0, "R15.9", "field-wise-copy-is-complete:"+core.FuncName(fn), c.Pos(in), "every field of the copied configuration is copied or set", core.FuncName(fn)+" copies a "+core.Deref(al.Type()).String()+" field by field and leaves out "+strings.Join(missing, ", ")+": the copy silently has the zero value there — without MustBeFresh the version discovery can be answered by a cache with the metadata of an older version, and the consumer obtains that version completely and without error")
+		})
+	}
+	c.Extra["field_wise_struct_copies"] = nCopies
+	if rm := c.Fn("R15.10", "std/object", "MemoryStore", "Remove"); rm != nil {
+		isRootRemove := func(in ssa.Instruction) bool {
+			ci, ok := in.(ssa.CallInstruction)
+			if !ok {
+				return false
+			}
+			id, ok := core.Callee(ci.Common())
+			if !ok || id.Recv != "memoryStoreNode" || id.Name != "remove" {
+				return false
+			}
+			r, _ := core.CallArgs(ci.Common())
+			_, isRoot := core.FieldOf(r, "root")
+			return isRoot
+		}
+		fr := core.MustFollowDeep(rm, core.Point{Block: rm.Blocks[0], Idx: 0}, isRootRemove, nil)
+		c.Decide(fr.OK, "R15.10", "remove-acts-on-the-committed-tree", p.Pos(rm.Pos()), "Remove removes from the tree that Get reads on every path", "MemoryStore.Remove can leave the committed tree (the one Get serves from) untouched — e.g. it acts on the pending transaction while one is open: packets that were removed are still served, to exact and prefix lookups and to consumers")
+	}
+}
+
+// accessKey names the place a value is read from (parameter, captured variable, field
+// chain), so that two loads of the same place have the same key (go/ssa does no CSE).
+func accessKey(v ssa.Value) string {
+	for depth := 0; depth < 8; depth++ {
+		switch x := core.Strip(v).(type) {
+		case *ssa.UnOp:
+			if x.Op == token.MUL {
+				return "*" + accessKey(x.X)
+			}
+			return x.Name()
+		case *ssa.FieldAddr:
+			return accessKey(x.X) + "." + strconv.Itoa(x.Field)
+		case *ssa.Field:
+			return accessKey(x.X) + "." + strconv.Itoa(x.Field)
+		case *ssa.Parameter:
+			return "param:" + x.Name()
+		case *ssa.FreeVar:
+			return "free:" + x.Name()
+		default:
+			if x == nil {
+				return "?"
+			}
+			return x.Name()
+		}
+	}
+	return "?"
 }
